@@ -10,9 +10,11 @@ from harness.props.c04 import compare_factor
 
 OBLIGATIONS = [
     "PgmVerif.C14_each_factor_once", "PgmVerif.C14_moral_covers_family", "PgmVerif.C14_bn_to_mn_measure",
+    "PgmVerif.C14_elimination_is_perfect",
 ]
-PARTIAL = ["'every elimination order yields a chordal supergraph' and the tree / running-intersection property of the built clique tree are "
-           "validated per case by the model's decidable predicates (chordal, tree, RIP, cover), not by theorems",
+PARTIAL = ["every elimination order is proved to be a perfect elimination ordering of the graph it fills in (C14_elimination_is_perfect); the "
+           "classical equivalence 'perfect elimination ordering <=> chordal' and the tree / running-intersection property of the clique tree "
+           "built from the maximal cliques are validated per case by the model's decidable predicates (chordal, tree, RIP, cover), not by theorems",
            "networkx clique enumeration and spanning tree are trusted; their outputs are validated per case"]
 RULE = ("BNs (C01 generator) and Markov networks / factor graphs with 2-5 variables, cards 2-3, unary, repeated and duplicate factors, "
         "connected for clique-tree targets; triangulation heuristics H1-H6 and explicit orders; 6 hash seeds; non-trivial = at least one "
@@ -21,12 +23,13 @@ ASSUMPTIONS = ["factor graphs cannot represent two value-equal factors (their no
 BUDGET_QUICK = 90
 LEVEL_TEXT = ("Kernel-checked: assigning every factor position to exactly one clique makes the product of clique potentials equal the product "
               "of all factors at every assignment (even with equal factors); the moral graph makes every CPD family a clique; BN->MN keeps the "
-              "factor list, hence the joint and Z. The implementation's conversions (BN->MN, MN<->FG, MN/FG/BN->junction tree, triangulate "
+              "factor list, hence the joint and Z; for EVERY graph and EVERY elimination order, the fill-in graph of the model of triangulate has "
+              "that order as a perfect elimination ordering (later neighbours of each vertex are pairwise adjacent). The implementation's conversions (BN->MN, MN<->FG, MN/FG/BN->junction tree, triangulate "
               "with H1-H6 and explicit orders) are compared at every named assignment with the brute-force joint of the model, partition "
               "functions are compared exactly, targets are validated with their own check_model and with the model's chordal / tree / "
               "running-intersection / cover predicates under 6 hash seeds.")
 LEVEL_NOTE = "Trusted: Lean kernel + standard axioms; model; harness; networkx find_cliques / minimum_spanning_tree / is_chordal."
-TECHNIQUE = "Lean 4 proof (factor-to-clique bookkeeping, moral cover) + per-case validation of targets against decidable model predicates"
+TECHNIQUE = "Lean 4 proof (factor-to-clique bookkeeping, moral cover, elimination order is a perfect elimination ordering) + per-case validation of targets against decidable model predicates"
 
 
 def joint_compare(factors_impl, fs_model, case, drv, what):
